@@ -35,6 +35,7 @@ type runRes struct {
 	root          string
 	panic         string
 	panicAtRevert bool
+	panicAfter    bool // panic in the query round / suffix / root, i.e. after the final revert
 	tok           string
 	rip           string
 	logSize       string
@@ -46,11 +47,13 @@ type runRes struct {
 func runOnce(header, prefix, region, suffix []string, withRegion, withQueries bool, qs []string, addrs []string) runRes {
 	w := NewWorld()
 	var res runRes
+	after := false
 	ex := func(l string) string {
 		r := hx.Guard(func() string { return w.Exec(l) })
 		if strings.HasPrefix(r, "PANIC") && res.panic == "" {
 			res.panic = l + " => " + r
 			res.panicAtRevert = strings.HasPrefix(l, "revert ")
+			res.panicAfter = after
 		}
 		return r
 	}
@@ -88,6 +91,7 @@ func runOnce(header, prefix, region, suffix []string, withRegion, withQueries bo
 			return res
 		}
 	}
+	after = true
 	if withQueries {
 		for _, q := range qs {
 			res.answers = append(res.answers, ex(q))
@@ -303,9 +307,17 @@ func (g *G) SlotLifecycle() (prefix, region, suffix []string) {
 			region = append(region, fmt.Sprintf("revert @%d", valid[k]))
 			valid = valid[:k]
 		case x < 10:
-			region = append(region, onSlot())
+			m := onSlot()
+			region = append(region, m)
+			if dr := g.DerivedReads(m); len(dr) > 0 && r.Chance(1, 2) {
+				region = append(region, dr[r.Intn(len(dr))])
+			}
 		default:
-			region = append(region, g.Mutator())
+			m := g.Mutator()
+			region = append(region, m)
+			if dr := g.DerivedReads(m); len(dr) > 0 && r.Chance(3, 4) {
+				region = append(region, dr[r.Intn(len(dr))])
+			}
 		}
 	}
 	ns := r.Intn(3)
@@ -474,8 +486,16 @@ func search(args map[string]string) {
 			for _, op1 := range alphabet {
 				for _, op2 := range alphabet {
 					pre := append(append([]string{}, base...), op1)
-					directed = append(directed, witness{prefix: pre, region: []string{op2}, both: true})
+					g0 := &G{r: hx.NewRng(7), u: u0}
+					reg := append([]string{op2}, g0.DerivedReads(op2)...) // every derived accessor asked while op2 is in place
+					directed = append(directed, witness{prefix: pre, region: reg, both: true})
 				}
+			}
+		}
+		// the same alphabet as `snapshot; op2; revert; op3`: residue of a reverted op that only a later op exposes
+		for _, op2 := range alphabet {
+			for _, op3 := range alphabet {
+				directed = append(directed, witness{region: []string{op2}, suffix: []string{op3}, both: true})
 			}
 		}
 		// historical configuration: Proposal002 not yet active (balance writes of AddFT/SubFT are not journaled)
@@ -566,7 +586,14 @@ func search(args map[string]string) {
 				case x == 2:
 					region = append(region, g.Query())
 				default:
-					region = append(region, g.Mutator())
+					m := g.Mutator()
+					region = append(region, m)
+					if g.r.Chance(3, 4) {
+						dr := g.DerivedReads(m)
+						for k := 0; k < 2 && len(dr) > 0; k++ {
+							region = append(region, dr[g.r.Intn(len(dr))])
+						}
+					}
 				}
 			}
 			ns := g.r.Intn(3)
@@ -598,6 +625,11 @@ func search(args map[string]string) {
 			base := viol{Prefix: prefix, Region: region, Suffix: suffix, Query: withQ}
 			if B.panic != "" {
 				break // the reference run itself panics (e.g. deleted token contract): not a revert question
+			}
+			if A.panic != "" && A.panicAfter {
+				base.Key, base.Desc, base.A, base.B = "panic-after-revert", "a query / later op / IntermediateRoot panics after the reverted region, the run without the region does not", A.panic, "no panic"
+				emit(base)
+				break
 			}
 			if A.panic != "" && !A.panicAtRevert {
 				regionPanics++
